@@ -4,7 +4,7 @@ PROPERTY_GROUPS = {
     'C02': ['rep', 'mp4'],
     'C03': ['mp4'],
     'C04': ['mp4'],
-    'C06': ['rep', 'timing', 'dt'],
+    'C06': ['rep', 'timing', 'dt', 'load'],
     'C08': ['timing'],
     'C09': ['timing', 'rep', 'dt'],
     'C11': ['playready'],
